@@ -17,6 +17,10 @@ CHECKS = {
     text="Kernel-checked theorem prefix_iff over the Lean model of is_authorized_path: a canonical path is authorised iff one of its prefixes is an accepted package, for every accepted set and every depth (plus monotonicity, sub-module inheritance, irrelevance of unrelated packages). Correspondence on all (depth 1..6) x (prefix depth) x (0..39 other packages); end-to-end implementation oracle: accepted edits change the signature, non-accepted edits do not, a non-accepted data function is refused with an error naming the module and is not executed.",
     note="only the matching function is modelled; Python name resolution (ObjectRetrieval) and the refusal path are exercised end to end on the real code, not proved; correspondence is sampled",
     technique="Lean 4 proof (decision logic stated outright) + differential correspondence + end-to-end oracle on generated packages"),
+ "C11": dict(
+    text="Kernel-checked theorem overlap_iff over the Lean model of non_terminal_leaves: for every list of well-formed kept paths in every order, something is reported iff one path is a strict segment-wise prefix of another (order_irrelevant as corollary). Exact-result correspondence on thousands of path lists. Cycle, nested-eval and no-effect clauses are decided end to end on the real code (programs: path sets x orders x placements; cycles of length 1..4 through call/keep/reference/method edges; nested eval at depth 1..4): error code, empty execution log, store unchanged.",
+    note="proof covers the overlap clause; the cycle / nested-eval / no-effect clauses are checked by an implementation oracle over generated programs until the analysis pass is in the Lean model (partial); root path '/' excluded; correspondence sampled",
+    technique="Lean 4 proof (induction on recursion depth of non_terminal_leaves, prefix characterisation) + differential correspondence + end-to-end oracle on generated programs"),
 }
 NOT_YET = "check not built yet in this round (work in progress, see DESIGN.md §10)"
 
